@@ -196,6 +196,9 @@ func c10Body(c *mc.Ctx) {
 		var k int
 		if i == 0 {
 			k = c.Shard("event", len(c10Events)+1)
+		} else if i == 4 {
+			// the fifth event (thorough tier) is drawn from the first 21 events only
+			k = c.Pick("event", 21+1)
 		} else {
 			k = c.Pick("event", len(c10Events)+1)
 		}
@@ -321,9 +324,10 @@ func init() {
 		Rule: "EVERY event sequence of length <= L over 29 events {version marker; replacing LST [s1,s2] / [s3]; LST importing sh v2 with max_id 0 / 1 / 2 / 4 / absent / null / -1 / -2 plus local l; LST importing sh with no version / version 0 (both mean version 1); LST importing sh v2 and declaring no local symbols (symbols:[] and no symbols field); an LST whose symbols list holds null.string and a non-string; appending LST (imports:$ion_symbol_table, bare and quoted); tables carrying open content whose field name has no text ($0) in the table struct and in an import struct; user value using SID n as field name, annotation and symbol value for n in {0,4,10,11,12,13,14}; structs annotated $ion_symbol_table nested in a list and a struct; a top-level struct whose SECOND annotation is $ion_symbol_table (a user value)} x 5 catalogs {exact v2, none, newer v3 only, older v1 only, v1+v3} x {binary, text}, read by the real Reader with that catalog. " +
 			"Oracle: the reference decoder/parser + refsym context machine over the same bytes: every user value's symbols by text / unknown-text+SID, SymbolTable().MaxID() at every top-level value, no table struct surfacing, and a stream error exactly when the reference finds an undefined SID or an import without usable max_id and no exact match (values before the error compared). " +
 			"non-trivial = all values and MaxIDs compared; distinct = distinct (catalog, values, MaxIDs, error) digests",
-		Bounds:      map[string]string{"quick": "L=4", "thorough": "L=5"},
+		Bounds:      map[string]string{"quick": "L=4", "thorough": "L=5, the fifth event drawn from the first 21 of the 29 events"},
 		Assumptions: []string{"refsym (Appendix A.3), refbin, reftext are the trusted reference", "repeated imports/symbols fields are not generated (specification leaves them open)"},
 		Body:        c10Body,
+		MaxShrink:   4000000, // every failing execution of the known defect has to reach its witness
 		Tiers:       map[string]mc.Tier{"quick": {}, "thorough": {}},
 	})
 }
